@@ -220,6 +220,16 @@ def body(chk):
                     chk.report("hedge:pow10", f"'{kw} {shifted}' = {o3[1:]} is not 100 x '{kw} {text}' = {o1[1:]}", {"kind": "oracle", "text": text, "kw": kw})
             elif o1[0] != o3[0]:
                 chk.report("hedge:pow10", f"'{kw} {shifted}' behaves differently from '{kw} {text}': {o3}", {"kind": "oracle", "text": text, "kw": kw})
+    # the first phrases once more, after everything else has been interpreted: the same text must decode the same way (no remembered state)
+    for phrase, num, out in flat[:60]:
+        kw = " ".join(w for w in phrase.split()[:-1])
+        if kw == "":
+            continue
+        again = run_hedge(phrase)
+        chk.count("second-reading", nontrivial=False)
+        why = oracle(kw, num, phrase, again)
+        if why:
+            chk.report(f"hedge:{kw}:second-reading", "interpreted a second time, after many other expressions: " + why, {"kind": "oracle", "text": phrase, "numeral": num, "first": out, "second": again})
     chunks = []
     CH = 200
     for s in range(0, len(items), CH):
